@@ -159,3 +159,55 @@ Proof.
                     [[(4, 7); (5, 8)]; [(4, 8); (5, 7)]] 2%nat 1%nat); [vm_compute; repeat constructor; simpl; intuition discriminate|vm_compute; reflexivity|now left].
 Qed.
 End Example_mol.
+
+(* ------------------------------------------------------------------ what the isomorphism test of a pair says *)
+(** [comp_iso] (the model of GraphMatcher(sub1, sub2).is_isomorphic() for components of equal size) holds iff some
+    common induced mapping of the two induced copies covers all of c1 -- so the premise of [mcs_mol_valid] about the
+    mappings inside the pairs is satisfiable exactly for the pairs the matching selects. *)
+Theorem comp_iso_spec nm em (g1 g2 : graph) (c1 c2 : list N) :
+  NoDup c1 -> incl c1 (node_ids g1) -> incl c2 (node_ids g2) ->
+  (comp_iso nm em g1 g2 c1 c2 = true <->
+   exists m, common_induced nm em (induced_sub g1 c1) (induced_sub g2 c2) m /\ Permutation (map fst m) c1).
+Proof.
+  intros N1 I1 I2. unfold comp_iso.
+  set (ms := monos c1 c2 (label g1) (label g2) (LGraph.adj g1) (LGraph.adj g2) nm em true).
+  assert (Lab1 : forall p, In p c1 -> label (induced_sub g1 c1) p = label g1 p) by (intros; now apply induced_label).
+  assert (Lab2 : forall h, In h c2 -> label (induced_sub g2 c2) h = label g2 h) by (intros; now apply induced_label).
+  split.
+  - intros H. destruct ms as [|m0 r] eqn:Em; [discriminate|].
+    assert (I : In m0 ms) by (rewrite Em; now left).
+    destruct (monos_only_such _ _ _ _ _ _ _ _ _ _ I) as (hs & Hl & E & Hv).
+    apply (C12_MonoPw.valid_pw _ _ _ _ _ _ _ _ (adj_sym g1) (adj_sym g2)) in Hv. destruct Hv as (P1 & P2 & P3).
+    assert (Hfst : map fst m0 = rev c1) by (rewrite E, map_rev, map_fst_combine; auto).
+    assert (Hin : forall p h, In (p, h) m0 -> In p c1 /\ In h c2).
+    { intros p h Iph. split; [|now apply (P1 p h)]. apply in_rev. rewrite <- Hfst. change p with (fst (p, h)). now apply in_map. }
+    exists m0. split.
+    + split; [rewrite Hfst; eapply Permutation_NoDup; [apply Permutation_rev|exact N1]|]. split; [exact P2|]. split.
+      * intros p h Iph. destruct (Hin p h Iph) as (Ip & Ih). destruct (P1 p h Iph) as (_ & Hn).
+        rewrite (Lab1 p Ip), (Lab2 h Ih). split; [apply induced_nodes; auto|]. split; [apply induced_nodes; auto|exact Hn].
+      * intros p h p' h' Iph Iph' Hne. destruct (Hin p h Iph) as (Ip & Ih). destruct (Hin p' h' Iph') as (Ip' & Ih').
+        rewrite (induced_adj g1 c1 p p' Ip Ip'), (induced_adj g2 c2 h h' Ih Ih').
+        assert (Hd : (p, h) <> (p', h')) by (intros Eq; inversion Eq; contradiction).
+        specialize (P3 _ _ Iph Iph' Hd). unfold edge_ok in P3. simpl in P3.
+        destruct (LGraph.adj g1 p p'), (LGraph.adj g2 h h'); simpl in P3; try discriminate; auto.
+    + rewrite Hfst. apply Permutation_sym, Permutation_rev.
+  - intros (m & (H1 & H2 & H3 & H4) & Pm).
+    destruct (Permutation_map_inv fst _ (Permutation_sym Pm)) as (m1 & Ec & P1).
+    assert (Hl : length (map snd m1) = length c1) by (rewrite Ec, !map_length; reflexivity).
+    assert (Ev : rev (combine c1 (map snd m1)) = rev m1) by (rewrite Ec, combine_fst_snd; reflexivity).
+    assert (I : In (rev (combine c1 (map snd m1))) ms).
+    { apply monos_spec; [exact Hl|]. apply C12_MonoPw.pw_valid. rewrite Ev.
+      apply (C12_MonoPw.pw_perm _ _ _ _ _ _ _ _ m); [eapply perm_trans; [exact P1|apply Permutation_rev]|].
+      assert (Hin : forall p h, In (p, h) m -> In p c1 /\ In h c2).
+      { intros p h Iph. destruct (H3 p h Iph) as (A & B & _). apply induced_nodes in A, B. tauto. }
+      split; [|split; [exact H2|]].
+      - intros p h Iph. destruct (Hin p h Iph) as (Ip & Ih). destruct (H3 p h Iph) as (_ & _ & Hn).
+        rewrite (Lab1 p Ip), (Lab2 h Ih) in Hn. auto.
+      - intros [p h] [p' h'] Iph Iph' Hd. unfold edge_ok. simpl.
+        destruct (Hin p h Iph) as (Ip & Ih). destruct (Hin p' h' Iph') as (Ip' & Ih').
+        assert (Hne : p <> p') by (intros ->; apply Hd; apply (NoDup_map_fst_eq m (p', h) (p', h')); auto).
+        specialize (H4 p h p' h' Iph Iph' Hne).
+        rewrite (induced_adj g1 c1 p p' Ip Ip'), (induced_adj g2 c2 h h' Ih Ih') in H4.
+        destruct (LGraph.adj g1 p p'), (LGraph.adj g2 h h'); simpl; tauto. }
+    destruct ms; [destruct I|reflexivity].
+Qed.
